@@ -104,8 +104,11 @@ class Loop:
         ev = []
         owners_ = owner_adts(a.db)
 
+        offs_seen = []
+        self.cursor_offsets = offs_seen
+
         def cursor_slot(c):
-            """`owner.storage.add(owner.cursor)` for a tracked owner LOCAL: the slot its own cursor designates at this call."""
+            """`owner.storage.add(owner.cursor + d)` for a tracked owner LOCAL, cursor = its value when the step begins (d is recorded)."""
             p = c.args[0]
             if p[0] != "P" or not c.targs:
                 return None
@@ -116,8 +119,12 @@ class Loop:
                 if o is None or o["array_is_ref"] or p[1][2][0] != o["array"]:
                     return None
                 for fpos in o["pos"]:
-                    v = a.read_cell(State(c.mem, c.facts), p[1][1], (fpos,), {"k": "prim", "n": "usize"})
-                    if v[0] == "I" and S_ is not None and p[2] == v[1] * S_:
+                    # (the cursor's value when the step begins: reading `storage[cursor]` after the cursor was raised is a different slot)
+                    v = a.read_cell(head, p[1][1], (fpos,), {"k": "prim", "n": "usize"})
+                    d_ = _elem_delta(p[2], v, S_)
+                    if d_ is not None:
+                        if ((p[1][1], fpos), d_) not in offs_seen:
+                            offs_seen.append(((p[1][1], fpos), d_))
                         return repr(("cur", p[1][1], fpos))
                 return None
             # an owner that refers to its storage (`array: &mut GenericArray<..>`): the storage is the pointee of that field
@@ -130,8 +137,11 @@ class Loop:
                 if not (arrp is not None and arrp[0] == "P" and arrp[1] == p[1] and not arrp[2].t):
                     continue
                 for fpos in o["pos"]:
-                    v = a.read_cell(st_, ("local", L), (fpos,), {"k": "prim", "n": "usize"})
-                    if v[0] == "I" and S_ is not None and p[2] == v[1] * S_:
+                    v = a.read_cell(head, ("local", L), (fpos,), {"k": "prim", "n": "usize"})
+                    d_ = _elem_delta(p[2], v, S_)
+                    if d_ is not None:
+                        if ((("local", L), fpos), d_) not in offs_seen:
+                            offs_seen.append(((("local", L), fpos), d_))
                         return repr(("cur", ("local", L), fpos))
             return None
         for c in self.calls():
@@ -198,6 +208,17 @@ class Loop:
         if adt in owners and opath[0] in owners[adt]["pos"]:
             return (obase, opath[0])
         return None
+
+
+def _elem_delta(off, v, S_):
+    """d such that the byte offset `off` is (v + d) elements of size S_ (d a small integer), else None."""
+    if v is None or v[0] != "I" or S_ is None:
+        return None
+    dd = off - v[1] * S_
+    for d in (0, 1, -1, 2, -2):
+        if dd == S_ * Poly.const(d):
+            return d
+    return None
 
 
 def find_loops(a):
